@@ -61,6 +61,7 @@ def handle (l : Line) : Option Verdict :=
       verdict [("impl_model", (Impl.Xxh64.xxh64 d (BitVec.ofNat 64 seed)).toNat == r)]
               [("xxh64_spec", (Spec.Xxh64.xxh64 d (BitVec.ofNat 64 seed)).toNat == r)]
     | _, _, _ => .bad "xxh args"
+  | "bloom_huge" => some (verdict [] [])   -- a filter of 4 GiB and more: judged by the C-side predicates (harness/ops_bloom.c)
   | "xxhbig" => some <|
     -- a length beyond 32 bits (zero bytes in a no-reserve mapping): judged on the C side against the reference
     -- XXH64 (`p_ref`); the model's list representation is not run on 4 GiB (see harness/ops_bloom.c)
